@@ -45,13 +45,18 @@ def cases(tier, seed):
                 cs.append({"kind": "forms", "tool": tool, "form": form, "output": output, "styles": styles,
                            "seed": seed * 100 + 3 + (k % 3)})
                 k += 1
-    for tool in ["colander", "combine", "chef", "mandoline_array", "mandoline_plotfile", "whip", "chk2plt", "marinate"]:
+    for tool in ["colander", "combine", "combine_byfile", "chef", "mandoline_array", "mandoline_plotfile", "whip",
+                 "chk2plt", "marinate"]:
         nchunks = 4
         for c in range(nchunks):
             cs.append({"kind": "faults", "tool": tool, "seed": seed * 100 + 5, "chunk": [c, nchunks],
                        "cap": 400 if tier == "quick" else 4000})
     for tool in ["colander", "combine", "chef", "mandoline_array", "whip", "pestle", "chk2plt"]:
         cs.append({"kind": "missing", "tool": tool, "seed": seed * 100 + 9})
+    # tools that need every byte of every FAB (readers of single components never touch the cut tail,
+    # and whip / the per-file iterators use 'parse failure = end of file' by design: not driven here)
+    for tool in ["colander", "combine", "combine_byfile", "chef", "chk2plt"]:
+        cs.append({"kind": "truncated", "tool": tool, "seed": seed * 100 + 17})
     if tier == "thorough":
         for tool in ["colander", "chef", "marinate", "chk2plt", "mandoline_array", "combine", "whip"]:
             cs.append({"kind": "strace", "tool": tool, "seed": seed * 100 + 13})
@@ -82,13 +87,21 @@ class Sandbox:
         self.m2 = gen.gen_model(**kw2)
         self.plt2 = os.path.join(self.ind, "plt00020")
         gen.write_plotfile(self.m2, self.plt2)
+        # a pair stored in header order with identical layouts: combine's sequential file-by-file mode
+        kw3 = dict(kw); kw3.update(shuffle=False)
+        self.m3 = gen.gen_model(**kw3)
+        self.plt3 = os.path.join(self.ind, "plt00030")
+        gen.write_plotfile(self.m3, self.plt3)
+        kw4 = dict(kw3); kw4.update(names=["g0", "g1"], data_seed=seed + 2)
+        self.plt4 = os.path.join(self.ind, "plt00040")
+        gen.write_plotfile(gen.gen_model(**kw4), self.plt4)
         self.chk = os.path.join(self.ind, "chk00005")
         ck = dict(nspecies=2, nghost=1, nlevels=1 if tiny else 2, bf=2 if tiny else 4, base_blocks=(1, 1) if tiny else (1, 2))
         chkgen.gen_chk(seed, self.chk, **ck)
         self.recipe = os.path.join(self.root, "recipe_sq.py")      # not an input tree: a user script
         with open(self.recipe, "w") as f:
             f.write(RECIPE)
-        self.inputs = [self.plt, self.plt2, self.chk]
+        self.inputs = [self.plt, self.plt2, self.plt3, self.plt4, self.chk]
 
     def styled(self, path, style):
         """(argument string, cwd) for an input path in the given style"""
@@ -124,6 +137,12 @@ def invoke(tool, form, sb, style, outarg, unknown=False):
             else:
                 with common.argv(["colander", arg, "-v", "f2", "f0", "-o", outarg]):
                     common.repo_module("amr_kitchen.colander.cli").main()
+        elif tool == "combine_byfile":
+            from amr_kitchen import PlotfileCooker
+            from amr_kitchen.combine.combine import combine
+            a3, _ = sb.styled(sb.plt3, style)
+            a4, _ = sb.styled(sb.plt4, style)
+            combine(PlotfileCooker(a3), PlotfileCooker(a4), pltout=outarg, vars1="f0 f2", vars2="g1")
         elif tool == "combine":
             # the second path without the trailing slash: the two defaults then compose differently
             arg2, _ = sb.styled(sb.plt2, style.replace("_slash", "") if style != "rel_slash" else "rel_parent")
@@ -462,6 +481,37 @@ def run_missing(case, work, rec):
         clean_outputs(sb, new)
 
 
+def run_truncated(case, work, rec):
+    """the last FAB of a binary file of the input is cut short: the tool must not return normally
+    with output that silently lacks data"""
+    tool = case["tool"]
+    sb = Sandbox(work, case["seed"])
+    make_refY(sb)
+    rec.seen("tools", tool)
+    if tool == "chk2plt":
+        d = os.path.join(sb.chk, "Level_0")
+        victim = sorted(f for f in os.listdir(d) if f.startswith("state_D"))[-1]
+    else:
+        target = sb.plt4 if tool == "combine_byfile" else sb.plt2 if tool == "combine" else sb.plt
+        d = os.path.join(target, "Level_0")
+        victim = sorted(f for f in os.listdir(d) if f.startswith("Cell_D"))[-1]
+    vp = os.path.join(d, victim)
+    with open(vp, "r+b") as f:
+        f.truncate(os.path.getsize(vp) - 24)
+    outarg, out_abs = (None, None) if tool == "pestle" else explicit_out(tool, sb, None)
+    key = (tool, "truncated-input")
+    pools.CTL.reset(mode="inproc", seed=2)
+    rec.count("invocations"); rec.count("truncated_input_forms")
+    form = "cli" if tool == "whip" else "api"
+    exc, new = audit_invocation(rec, sb, work, f"{tool} with the last FAB of {victim} truncated by 24 bytes", key,
+                                lambda: invoke(tool, form, sb, "abs", outarg), out_abs, tool == "pestle", True)
+    if exc is None:
+        rec.violation(f"{tool}: returned normally although the last FAB of input file {victim} is truncated "
+                      f"(a read failure was swallowed)", key=key + ("noerr",),
+                      witness={"wrote": [os.path.relpath(p, sb.root) for p in new][:5]})
+    clean_outputs(sb, new)
+
+
 def run_strace(case, work, rec):
     """console form in a real subprocess under strace: no successful write-class syscall under S/in"""
     tool = case["tool"]
@@ -498,4 +548,5 @@ def run_strace(case, work, rec):
 
 
 def run_case(case, work, rec):
-    {"forms": run_forms, "faults": run_faults, "missing": run_missing, "strace": run_strace}[case["kind"]](case, work, rec)
+    {"forms": run_forms, "faults": run_faults, "missing": run_missing, "strace": run_strace,
+     "truncated": run_truncated}[case["kind"]](case, work, rec)
